@@ -441,3 +441,82 @@ func verifHarness_C12_concurrent_inflate_two_connections() {
 	}
 	verifAssert(false, "witness")
 }
+
+// ---- a control frame between the fragments of a message (RFC 6455 5.4): the
+// sender's frames of a fragmented message with a ping (payload symbolic) put
+// between two of them at a solver-chosen boundary; the message must still be
+// delivered once and intact, the ping answered by a pong with the same payload.
+func verifHarness_C12_ping_between_fragments() {
+	verifBound("payload_len_max", 7)
+	clientSends := verifChoose("sender_is_client", 2) == 1
+	compressed := verifChoose("compressed", 2) == 1
+	n := 4 + verifChoose("len", 4)
+	snd := verifNewEndpoint(clientSends, compressed, 0, nil)
+	rcv := verifNewEndpoint(!clientSends, compressed, 0, nil)
+	snd.eng.MaxWebsocketFramePayloadSize = 3
+	if compressed {
+		snd.c.enableWriteCompression = true
+		snd.u.WebsocketCompressor = func(c *Conn, w io.WriteCloser, level int) io.WriteCloser {
+			return &verifStubCompressor{w: w}
+		}
+		rcv.u.WebsocketDecompressor = func(c *Conn, r io.Reader) io.ReadCloser {
+			return &verifStubDecompressor{r: r}
+		}
+	}
+	payload := verifBytes("p", n)
+	orig := append([]byte(nil), payload...)
+	if snd.c.WriteMessage(BinaryMessage, payload) != nil {
+		verifFail("write-succeeds", "ping-between-fragments")
+		return
+	}
+	msgWire := snd.fake.wire()
+	// frame boundaries of the message
+	var bounds []int
+	for pos := 0; pos < len(msgWire); {
+		f := verifDecodeFrame(msgWire[pos:])
+		if !f.ok {
+			verifFail("sender-frame-decodes", "ping-between-fragments")
+			return
+		}
+		pos += f.total
+		bounds = append(bounds, pos)
+	}
+	verifAssertD(len(bounds) >= 2, "message-is-fragmented", "")
+	// the ping, written by the same sender
+	before := len(snd.fake.writes)
+	pingData := verifBytes("ping", verifChoose("ping_len", 3))
+	if snd.c.WriteMessage(PingMessage, pingData) != nil {
+		verifFail("write-succeeds", "ping")
+		return
+	}
+	var ping []byte
+	for _, w := range snd.fake.writes[before:] {
+		ping = append(ping, w...)
+	}
+	at := bounds[verifChoose("ping_after_frame", len(bounds)-1)]
+	wire := append(append(append([]byte(nil), msgWire[:at]...), ping...), msgWire[at:]...)
+	cut := verifConc(verifInt("cut", 1, len(wire)))
+	perr := rcv.c.Parse(append([]byte(nil), wire[:cut]...))
+	if perr == nil && cut < len(wire) {
+		perr = rcv.c.Parse(append([]byte(nil), wire[cut:]...))
+	}
+	verifAssertD(perr == nil, "receiver-accepts", "ping-between-fragments")
+	verifAssertD(len(rcv.msgs) == 1, "delivered-exactly-once", "ping-between-fragments")
+	if len(rcv.msgs) == 1 {
+		verifReach("delivered-around-ping")
+		verifAssertD(rcv.msgs[0].typ == BinaryMessage, "same-type", "ping-between-fragments")
+		verifAssertD(len(rcv.msgs[0].data) == n && verifEqBytes(rcv.msgs[0].data, orig), "same-payload", "ping-between-fragments")
+	}
+	// exactly one pong, same payload
+	pongs := 0
+	for _, w := range rcv.fake.writes {
+		f := verifDecodeFrame(w)
+		if f.ok && f.opcode == int(PongMessage) {
+			pongs++
+			verifAssertD(len(f.payload) == len(pingData) && verifEqBytes(f.payload, pingData), "pong-carries-ping-payload", "between-fragments")
+		}
+	}
+	verifAssertD(pongs == 1, "ping-answered-by-one-pong", "between-fragments")
+	verifAssertD(!rcv.fake.closed, "receiver-stays-open", "ping-between-fragments")
+	verifAssert(false, "witness")
+}
